@@ -218,3 +218,90 @@ package mem
 //@   ensures "root" [C03] err == nil && fs != nil && fresh(fs) && fs.kv != nil && keyvalue.isMem(fs.kv) && keyvalue.fsInv(fs.kv) && keyvalue.treeInv(fs.kv) &&
 //@                     forall(k, string, implies(in(k, dom(keyvalue.ms(fs.kv).records)), k == "."))
 //@   nopanic
+
+// The methods of mem.FS delegate to the key-value FS over the in-memory store; what is restated here is the
+// induction step of C03/C04 at the public API: NewFS establishes treeInv, every operation keeps it, invalid names change nothing.
+//@ spec memOK(fs *FS) := fs != nil && fs.kv != nil && keyvalue.fsMem(fs.kv)
+//@ func (fs *FS) Open(name string) (f hackpadfs.File, err error)
+//@   props C03 C04
+//@   requires memOK(fs)
+//@   requires "trunc-data-ok" implies(false && keyvalue.kvHas(fs.kv, name), keyvalue.dataOKRec(keyvalue.kvRec(fs.kv, name)))
+//@   modifies world(), mapOf(keyvalue.ms(fs.kv).records), garr("blobAt", payload(keyvalue.rawData(keyvalue.kvRec(fs.kv, name)))), gint("blobLen", payload(keyvalue.rawData(keyvalue.kvRec(fs.kv, name)))),
+//@            keyvalue.rawData(keyvalue.kvRec(fs.kv, name)).(*blob.Bytes).bytes, keyvalue.rawData(keyvalue.kvRec(fs.kv, name)).(*blob.Bytes).length, elems(keyvalue.rawData(keyvalue.kvRec(fs.kv, name)).(*blob.Bytes).bytes)
+//@   ensures "gate" [C04] implies(!VP(name), err != nil && errIs(err, hackpadfs.ErrInvalid) && keyvalue.memSame(fs.kv))
+//@   ensures "tree" [C03] implies(old(keyvalue.treeInv(fs.kv)), keyvalue.treeInv(fs.kv))
+//@   ensures "inv" memOK(fs)
+//@   nopanic
+
+//@ func (fs *FS) OpenFile(name string, flag int, perm hackpadfs.FileMode) (f hackpadfs.File, err error)
+//@   props C03 C04
+//@   requires memOK(fs)
+//@   requires "trunc-data-ok" implies(flag & hackpadfs.FlagTruncate != 0 && keyvalue.kvHas(fs.kv, name), keyvalue.dataOKRec(keyvalue.kvRec(fs.kv, name)))
+//@   modifies world(), mapOf(keyvalue.ms(fs.kv).records), garr("blobAt", payload(keyvalue.rawData(keyvalue.kvRec(fs.kv, name)))), gint("blobLen", payload(keyvalue.rawData(keyvalue.kvRec(fs.kv, name)))),
+//@            keyvalue.rawData(keyvalue.kvRec(fs.kv, name)).(*blob.Bytes).bytes, keyvalue.rawData(keyvalue.kvRec(fs.kv, name)).(*blob.Bytes).length, elems(keyvalue.rawData(keyvalue.kvRec(fs.kv, name)).(*blob.Bytes).bytes)
+//@   ensures "gate" [C04] implies(!VP(name), err != nil && errIs(err, hackpadfs.ErrInvalid) && keyvalue.memSame(fs.kv))
+//@   ensures "tree" [C03] implies(old(keyvalue.treeInv(fs.kv)), keyvalue.treeInv(fs.kv))
+//@   ensures "inv" memOK(fs)
+//@   nopanic
+
+//@ func (fs *FS) Mkdir(name string, perm hackpadfs.FileMode) (err error)
+//@   props C03 C04
+//@   requires memOK(fs)
+//@   modifies world(), mapOf(keyvalue.ms(fs.kv).records)
+//@   ensures "gate" [C04] implies(!VP(name), err != nil && errIs(err, hackpadfs.ErrInvalid) && keyvalue.memSame(fs.kv))
+//@   ensures "tree" [C03] implies(old(keyvalue.treeInv(fs.kv)), keyvalue.treeInv(fs.kv))
+//@   ensures "inv" memOK(fs)
+//@   nopanic
+
+//@ func (fs *FS) MkdirAll(path string, perm hackpadfs.FileMode) (err error)
+//@   props C03 C04
+//@   requires memOK(fs) && len(path) < 1<<30
+//@   modifies world(), mapOf(keyvalue.ms(fs.kv).records)
+//@   ensures "gate" [C04] implies(!VP(path), err != nil && errIs(err, hackpadfs.ErrInvalid) && keyvalue.memSame(fs.kv))
+//@   ensures "tree" [C03] implies(old(keyvalue.treeInv(fs.kv)), keyvalue.treeInv(fs.kv))
+//@   ensures "inv" memOK(fs)
+//@   nopanic
+
+//@ func (fs *FS) Remove(name string) (err error)
+//@   props C03 C04
+//@   requires memOK(fs)
+//@   modifies world(), mapOf(keyvalue.ms(fs.kv).records)
+//@   ensures "gate" [C04] implies(!VP(name), err != nil && errIs(err, hackpadfs.ErrInvalid) && keyvalue.memSame(fs.kv))
+//@   ensures "tree" [C03] implies(old(keyvalue.treeInv(fs.kv)), keyvalue.treeInv(fs.kv))
+//@   ensures "inv" memOK(fs)
+//@   nopanic
+
+//@ func (fs *FS) Stat(name string) (info hackpadfs.FileInfo, err error)
+//@   props C03 C04
+//@   requires memOK(fs)
+//@   modifies world(), mapOf(keyvalue.ms(fs.kv).records)
+//@   ensures "gate" [C04] implies(!VP(name), err != nil && errIs(err, hackpadfs.ErrInvalid) && keyvalue.memSame(fs.kv))
+//@   ensures "tree" [C03] implies(old(keyvalue.treeInv(fs.kv)), keyvalue.treeInv(fs.kv))
+//@   ensures "inv" memOK(fs)
+//@   nopanic
+
+//@ func (fs *FS) Chmod(name string, mode hackpadfs.FileMode) (err error)
+//@   props C03 C04
+//@   requires memOK(fs)
+//@   modifies world(), mapOf(keyvalue.ms(fs.kv).records)
+//@   ensures "gate" [C04] implies(!VP(name), err != nil && errIs(err, hackpadfs.ErrInvalid) && keyvalue.memSame(fs.kv))
+//@   ensures "tree" [C03] implies(old(keyvalue.treeInv(fs.kv)), keyvalue.treeInv(fs.kv))
+//@   ensures "inv" memOK(fs)
+//@   nopanic
+
+//@ func (fs *FS) Chtimes(name string, atime time.Time, mtime time.Time) (err error)
+//@   props C03 C04
+//@   requires memOK(fs)
+//@   modifies world(), mapOf(keyvalue.ms(fs.kv).records)
+//@   ensures "gate" [C04] implies(!VP(name), err != nil && errIs(err, hackpadfs.ErrInvalid) && keyvalue.memSame(fs.kv))
+//@   ensures "tree" [C03] implies(old(keyvalue.treeInv(fs.kv)), keyvalue.treeInv(fs.kv))
+//@   ensures "inv" memOK(fs)
+//@   nopanic
+
+//@ func (fs *FS) Rename(oldname string, newname string) (err error)
+//@   props C04
+//@   requires memOK(fs)
+//@   modifies world(), mapOf(keyvalue.ms(fs.kv).records)
+//@   ensures "gate" [C04] implies(!VP(oldname) || !VP(newname), err != nil && errIs(err, hackpadfs.ErrInvalid) && keyvalue.memSame(fs.kv))
+//@   ensures "inv" memOK(fs)
+//@   nopanic
